@@ -261,7 +261,11 @@ def bits_of_bytes(b: "arr") -> "seq[int]":
 def wf_type(fcp: "ref:FcpV2", t: "ref:Type") -> "bool":
     if isinstance(t, UnsignedType) or isinstance(t, SignedType):
         return 1 <= num_width(t) and num_width(t) <= 64
-    if isinstance(t, FloatType) or isinstance(t, DoubleType) or isinstance(t, StringType):
+    if isinstance(t, FloatType):
+        return t.name == "f32"
+    if isinstance(t, DoubleType):
+        return t.name == "f64"
+    if isinstance(t, StringType):
         return True
     if isinstance(t, EnumType):
         return has_enum(fcp, t.name) and enum_values_ok(enum_of(fcp, t.name))
